@@ -534,7 +534,8 @@ CORRESPONDENCE_ONLY = [
     "to_floating_point / from_floating_point (strtod family): no model",
     "cctype / cwctype predicates: total functions over int, no buffer (C18 proves their values; nothing to state for C02 beyond UBSan observation)",
     "integer comparison helpers cmp_less … in_range (C14): total functions, no error case in the model",
-    "bitset::to_ulong/to_ullong for N > 64 (absent API, C17 known finding)",
+    "bitset::to_ulong/to_ullong: the 'value fits' contract and the two loops are modelled and proved for C17 "
+    "(Tetl.C17.Props.toUnsigned_eq / toUnsigned_overflow) and C05 (bsToU_eq); C02 has no corollary of its own for them",
     "span element access operator[]/front/back and array<T,N> members: observed by the run-time stream only",
     "inplace_string::replace family: safety only inside the hypotheses of C04's partial theorems (string_replace*_no_oob_partial; "
     "C04 known finding F-C04-replace-overwrites-only)",
